@@ -2,7 +2,7 @@
 From Coq Require Import Lia ZArith.
 From ChitchatModel Require Import Base SMap Ids Bytes Params NodeState Stream DeltaWire Message Cluster
   FD Chitchat SMap_lemmas Cluster_lemmas Chitchat_lemmas FD_lemmas Inv Compute_lemmas NodeInv
-  Prefix_lemmas Liveness_lemmas World Truth NodeTruth Weak Reach ReachFD Revive MemInv ReachMem FdKnown GuardsGen GuardTie.
+  Prefix_lemmas Liveness_lemmas World Truth NodeTruth Weak Reach ReachFD Revive MemInv ReachMem FdKnown GuardsGen GuardTie LruBound.
 
 (* one classification step: the detector's sets stay disjoint (and sorted), the member is put in
    exactly one of them, nobody else moves, and a member already dead keeps the instant of the
@@ -158,6 +158,34 @@ Proof.
   - destruct (wm_get i (fd_samples (nd_fd n))) eqn:E; [exfalso; apply Hnm; right; right; rewrite E; discriminate|reflexivity].
 Qed.
 Print Assumptions C12_detector_forgets_removed_members.
+
+(* How long "remembered" lasts (the premise of the recreation rule above).  The removed-member memory
+   is an LRU of GARBAGE_COLLECTED_NODE_HISTORY_SIZE entries (Params.P_GC_HISTORY, regenerated from
+   lib.rs): removal of a member pushes (id, heartbeat held), creation of a member pops its entry.
+   For every sequence of such operations: the memory never exceeds the capacity; and the entry
+   pushed when member [k] was removed is still there, with the same heartbeat, after ANY sequence of
+   removals / creations of other members containing fewer than the capacity removals — so a stale
+   heartbeat can recreate a removed member only after that many further removals.  The bound is
+   tight (LruBound.lru_evicts_after_cap_pushes). *)
+Theorem C12_memory_is_bounded_and_retains_until_capacity_further_removals :
+  (forall cs i, (length (cs_gcn cs) <= gc_history_cap)%nat ->
+     (length (cs_gcn (remove_node cs i)) <= gc_history_cap)%nat /\
+     (length (cs_gcn (node_state_mut_or_init cs i)) <= gc_history_cap)%nat) /\
+  (forall ops l, (length l <= gc_history_cap)%nat ->
+     (length (fold_left (lru_apply gc_history_cap) ops l) <= gc_history_cap)%nat) /\
+  (forall k v l ops, (forall o, In o ops -> lru_op_key o <> k) -> (lru_pushes ops < gc_history_cap)%nat ->
+     lru_peek k (fold_left (lru_apply gc_history_cap) ops (lru_push gc_history_cap k v l)) = Some v).
+Proof.
+  assert (Hc : (0 < gc_history_cap)%nat) by (unfold gc_history_cap; vm_compute; lia).
+  split; [|split].
+  - intros cs i Hl. split.
+    + unfold remove_node. destruct (nm_get i (cs_nodes cs)); cbn [cs_gcn]; [apply lru_push_length; assumption|exact Hl].
+    + unfold node_state_mut_or_init. destruct (nm_get i (cs_nodes cs)); cbn [cs_gcn]; [exact Hl|].
+      unfold lru_pop. pose proof (lru_remove_length i (cs_gcn cs)). lia.
+  - intros ops l Hl. apply lru_never_exceeds_capacity; assumption.
+  - intros k v l ops Hk Hp. apply lru_pushed_entry_retained; assumption.
+Qed.
+Print Assumptions C12_memory_is_bounded_and_retains_until_capacity_further_removals.
 
 (* ---- the tie of the decision guards to the sources (GuardTie.v; see C14.v for the scheme):
    the model function is the decision tree over the model's guards g_x, and each g_x cuts its
